@@ -245,6 +245,19 @@ func (cl *cluster) startLocked(p *proc) error {
 	return nil
 }
 
+// freshSyncPorts gives the next incarnation of a replica's sync agent its own receiver ports
+func (cl *cluster) freshSyncPorts(name string) {
+	p := cl.procs[name]
+	if p == nil {
+		return
+	}
+	p.mu.Lock()
+	defer p.mu.Unlock()
+	slot := portSlot()
+	p.syncArgs = []string{"sync-agent", "--listen", p.ip + ":9504", "--listen-port-range",
+		fmt.Sprintf("%d-%d", 20000+slot*12, 20000+slot*12+11)}
+}
+
 func (cl *cluster) kill(name string) {
 	p := cl.procs[name]
 	if p == nil {
@@ -462,6 +475,26 @@ func (r *run) exec(op Op) {
 	case "WaitRW":
 		ok := r.waitRW(cl, op.N, time.Duration(op.Ms)*time.Millisecond)
 		r.emit("WaitRW", map[string]interface{}{"n": op.N, "ok": ok})
+	case "WaitMode":
+		// until the controller lists replica op.A with mode op.Name (e.g. "WO": just added, the
+		// transfer of its rebuild has not finished yet)
+		want := ""
+		if p := cl.procs[op.A]; p != nil {
+			want = "tcp://" + p.ip + ":9502"
+		}
+		ok := false
+		deadline := time.Now().Add(time.Duration(op.Ms) * time.Millisecond)
+		for !ok && time.Now().Before(deadline) {
+			for _, rep := range cl.c.ListReplicas() {
+				if rep.Address == want && string(rep.Mode) == op.Name {
+					ok = true
+				}
+			}
+			if !ok {
+				time.Sleep(5 * time.Millisecond)
+			}
+		}
+		r.emit("Sample", map[string]interface{}{"waitmode": op.A, "mode": op.Name, "ok": ok})
 	case "Sleep":
 		time.Sleep(time.Duration(op.Ms) * time.Millisecond)
 		r.emit("Sample", map[string]interface{}{})
@@ -698,8 +731,14 @@ func (r *run) runClone(subnet, wd string) {
 			c2.kill("k1")
 			killed = true
 			r.emit("CloneKill", map[string]interface{}{})
-			time.Sleep(100 * time.Millisecond)
+			// the node stays down long enough for the new volume's controller to notice (it polls
+			// the clone status every 2 s and drops the replica when the poll fails) and for the
+			// source's interrupted ssync sender to give up (7 s of retries); the restarted sync
+			// agent gets a receiver port range of its own
+			time.Sleep(9 * time.Second)
+			c2.freshSyncPorts("k1")
 			c2.spawn("k1", subnet+".102")
+			deadline = time.Now().Add(60 * time.Second)
 			continue
 		}
 		if reps, _ := m["replicas"].(map[string]string); reps["k1"] == "RW" {
